@@ -288,6 +288,24 @@ def main():
                         f["profile_only"] = prof
                         violations.append((prof, f))
 
+    # a proof hint / closure spec / restructuring rule whose anchor is gone leaves the obligations of that function
+    # undischarged for want of the hint, not because of what the code does: undecided, never an alarm
+    hint_lost = []
+    if not undecided and violations:
+        lost = {}
+        for sk in res.get("meta", {}).get("skipped_anchors", []):
+            lost.setdefault(sk.get("fn"), []).append(sk)
+        keep_v = []
+        for prof, f in violations:
+            if f["fn"] in lost:
+                hint_lost.append((f, lost[f["fn"]]))
+            else:
+                keep_v.append((prof, f))
+        violations = keep_v
+        if hint_lost and not violations and not known_hits:
+            f, sk = hint_lost[0]
+            undecided = "obligation %s in %s is not discharged, and a proof hint / closure contract of that function lost its anchor (%s): cannot tell a missing hint from a defect" % (
+                f["name"], f["fn"], "; ".join("%s %s" % (x.get("kind"), x.get("name") or x.get("expected")) for x in sk)[:300])
     if not undecided and stability:
         base = set((f["fn"], f["name"]) for fl in res["failures"].values() for f in fl)
         for st in stability:
